@@ -1378,5 +1378,276 @@ def separated (classes : List Class) (a b : String) : Bool :=
   match classes.find? (fun c => c.id == a), classes.find? (fun c => c.id == b) with
   | some A, some B => tagDisjoint A B || requiresUndeclared A B
   | _, _ => false
+variable {cfg : Cfg}
+
+/-! ## construction by attribute name, `None` members, leaf coercions -/
+
+/-- no attribute name of a class is the wire name of ANOTHER field of the class -/
+def NamesApart (c : Class) : Prop := ∀ f ∈ c.fields, ∀ g ∈ c.fields, g.wire = f.name → g = f
+
+def namesApart (c : Class) : Bool :=
+  c.fields.all (fun f => c.fields.all (fun g => g.wire != f.name || (g.name == f.name && g.wire == f.wire)))
+
+theorem attrOf_idem {c : Class} (hwf : ClassWF c) (hn : namesApart c = true) (k : String) :
+    c.attrOf (c.attrOf k) = c.attrOf k := by
+  cases hw : c.byWire k with
+  | none => rw [attrOf_extra hw, attrOf_extra hw]
+  | some f =>
+    obtain ⟨hf, hfw⟩ := byWire_some hw
+    rw [attrOf_wire hw]
+    cases hw2 : c.byWire f.name with
+    | none => exact attrOf_extra hw2
+    | some g =>
+      obtain ⟨hg, hgw⟩ := byWire_some hw2
+      rw [attrOf_wire hw2]
+      simp only [namesApart, List.all_eq_true, Bool.or_eq_true, bne_iff_ne, ne_eq, Bool.and_eq_true, beq_iff_eq] at hn
+      rcases hn f hf g hg with h | h
+      · exact absurd hgw h
+      · exact h.1
+
+/-- **Keyword construction by attribute name is construction from the wire object.**  Renaming
+every wire-named member of ANY object to the Python attribute name of its field (what the library's
+own constructors pass) does not change the typed value. -/
+theorem construct_by_attribute_names {cls : String} {c : Class} (hwf : ClassWF c) (hn : namesApart c = true)
+    (hfind : cfg.find cls = some c) (kvs : List (String × Json))
+    (hinv : cfg.inv c.id (kvs.map (fun p => (c.attrOf p.1, p.2))) = cfg.inv c.id kvs) :
+    validate cfg (.ref cls) (.obj (kvs.map (fun p => (c.attrOf p.1, p.2)))) = validate cfg (.ref cls) (.obj kvs) := by
+  have hm : validateMembers cfg c (kvs.map (fun p => (c.attrOf p.1, p.2))) = validateMembers cfg c kvs := by
+    rw [validateMembers_eq, validateMembers_eq, List.map_map]
+    apply List.map_congr_left
+    intro p _
+    simp only [Function.comp, memberRes, attrOf_idem hwf hn]
+  simp only [validate, hfind, assemble, hm, hinv]
+
+theorem dump_isNull_of_not_isNone (b1 b2 : Bool) (x : TVal) (h : x.isNone = false) :
+    (dump cfg b1 b2 x).isNull = false := by
+  cases x with
+  | leaf j => cases j <;> simp_all [dump, TVal.isNone, Json.isNull]
+  | list xs => simp [dump, Json.isNull]
+  | dict kvs => simp [dump, Json.isNull]
+  | model c fs => simp [dump, Json.isNull]
+
+/-- **No `None` members.**  With `exclude_none=True` no member of a dumped model object is `null`,
+for every typed value whatsoever. -/
+theorem dumpFields_no_null (byAlias : Bool) (cls : String) (fs : List (String × TVal)) :
+    ∀ m ∈ dumpFields cfg byAlias true cls fs, m.2.isNull = false := by
+  induction fs with
+  | nil => intro m hm; simp [dumpFields] at hm
+  | cons p r ih =>
+    obtain ⟨k, x⟩ := p
+    intro m hm
+    simp only [dumpFields, Bool.true_and] at hm
+    split at hm
+    · exact ih m hm
+    · rename_i hx
+      rcases List.mem_cons.mp hm with h | h
+      · subst h
+        exact dump_isNull_of_not_isNone _ _ x (by simpa using hx)
+      · exact ih m h
+
+/-- the leaf coercions of `_deep_validate` (origin None, class branch): everything the fallback does
+to a primitive value other than keeping it -/
+inductive Coerced : Ty → Json → Json → Prop
+  | strOfInt (i : Int) : Coerced .str (.int i) (.str (toString i))
+  | strOfBool (b : Bool) : Coerced .str (.bool b) (.str (if b then "True" else "False"))
+  | strOfFloat (tok : String) : Coerced .str (.flt tok) (.str tok)
+  | intOfStr (s : String) (n : Int) : parseInt s = some n → Coerced .int (.str s) (.int n)
+  | floatOfBool (b : Bool) : Coerced .float (.bool b) (.int (if b then 1 else 0))
+  | floatOfStr (s : String) (n : Int) : parseInt s = some n → Coerced .float (.str s) (.int n)
+  | boolOfStr (s : String) (b : Bool) : pyBoolOfStr s = some b → Coerced .bool (.str s) (.bool b)
+
+/-- **Catalogue of leaf coercions.**  Whenever the fallback accepts a primitive value it either keeps
+it or applies exactly one of the seven listed coercions — nothing else can change a leaf. -/
+theorem validatePrim_keeps_or_coerces (t : Ty) (j : Json) (v : TVal) (h : validatePrim t j = .ok v) :
+    v = .leaf j ∨ ∃ j', v = .leaf j' ∧ Coerced t j j' := by
+  unfold validatePrim at h
+  split at h
+  · injection h with h; subst h; exact Or.inl rfl
+  · injection h with h; subst h; exact Or.inr ⟨_, rfl, .strOfInt _⟩
+  · injection h with h; subst h; exact Or.inr ⟨_, rfl, .strOfBool _⟩
+  · injection h with h; subst h; exact Or.inr ⟨_, rfl, .strOfFloat _⟩
+  · injection h with h; subst h; exact Or.inl rfl
+  · injection h with h; subst h; exact Or.inl rfl
+  · split at h
+    · rename_i n hn; injection h with h; subst h; exact Or.inr ⟨_, rfl, .intOfStr _ _ hn⟩
+    · cases h
+  · injection h with h; subst h; exact Or.inl rfl
+  · injection h with h; subst h; exact Or.inl rfl
+  · injection h with h; subst h; exact Or.inr ⟨_, rfl, .floatOfBool _⟩
+  · split at h
+    · rename_i n hn; injection h with h; subst h; exact Or.inr ⟨_, rfl, .floatOfStr _ _ hn⟩
+    · cases h
+  · injection h with h; subst h; exact Or.inl rfl
+  · split at h
+    · rename_i b hb; injection h with h; subst h; exact Or.inr ⟨_, rfl, .boolOfStr _ _ hb⟩
+    · cases h
+  · split at h
+    · injection h with h; subst h; exact Or.inl rfl
+    · cases h
+  · cases h
+
+/-- a coerced leaf is a fixpoint: validating the result again keeps it -/
+theorem validatePrim_idempotent (t : Ty) (j : Json) (j' : Json) (h : validatePrim t j = .ok (.leaf j')) :
+    validatePrim t j' = .ok (.leaf j') := by
+  rcases validatePrim_keeps_or_coerces t j _ h with h1 | ⟨j'', h1, hc⟩
+  · injection h1 with h1; subst h1; exact h
+  · injection h1 with h1; subst h1
+    cases hc <;> simp [validatePrim]
+variable {cfg : Cfg}
+
+/-! ## generated helpers against the generated schemas -/
+
+/-- a constant argument fits the declared type of the field it is passed to (leaf check) -/
+def constFits : Ty → Json → Bool
+  | .opt _, .null => true
+  | .opt t, j => constFits t j
+  | .lit vs, .str s => vs.contains s
+  | .str, .str _ => true
+  | .int, .int _ => true
+  | .float, .int _ => true
+  | .float, .flt _ => true
+  | .bool, .bool _ => true
+  | .any, _ => true
+  | .union a b, j => constFits a j || constFits b j
+  | .list _, .arr _ => true
+  | .dict _, .obj _ => true
+  | _, _ => false
+
+mutual
+/-- every constructor call inside the expression names a class of the table, passes declared
+attribute names only (each once), supplies every required field, and passes constants that fit -/
+def bexprOk (classes : List Class) : BExpr → Bool
+  | .model cls kws =>
+    match classes.find? (fun c => c.id == cls) with
+    | none => false
+    | some c =>
+      keysNodup kws
+      && c.fields.all (fun f => !f.required || hasKey f.name kws)
+      && kwsOk classes c kws
+  | .list xs => bexprsOk classes xs
+  | .dict kvs => bdictOk classes kvs
+  | .orElse a b => bexprOk classes a && bexprOk classes b
+  | .ite _ a b => bexprOk classes a && bexprOk classes b
+  | _ => true
+
+def bexprsOk (classes : List Class) : List BExpr → Bool
+  | [] => true
+  | x :: r => bexprOk classes x && bexprsOk classes r
+
+def bdictOk (classes : List Class) : List (BKey × BExpr) → Bool
+  | [] => true
+  | (_, x) :: r => bexprOk classes x && bdictOk classes r
+
+def kwsOk (classes : List Class) (c : Class) : List (String × BExpr) → Bool
+  | [] => true
+  | (a, x) :: r =>
+    (match c.byName a with
+      | none => false
+      | some f => match x with
+        | .const j => constFits f.ty j
+        | _ => true)
+    && bexprOk classes x && kwsOk classes c r
+end
+
+def stmtOk (classes : List Class) : BStmt → Bool
+  | .assign _ e => bexprOk classes e
+  | .assignIf _ _ e => bexprOk classes e
+  | .setKeyIf _ _ _ e => bexprOk classes e
+
+def builderOk (classes : List Class) (b : Builder) : Bool :=
+  b.body.all (stmtOk classes) && bexprOk classes b.ret
+
+/-- a dispatch entry: the tag's first entry is this class, and the class declares the dispatch member
+as `Literal[tag]` -/
+def parseEntryOk (classes : List Class) (p : ParseTable) (e : String × String) : Bool :=
+  (lookup e.1 p.table == some e.2)
+  && match classes.find? (fun c => c.id == e.2) with
+    | some c => c.fields.any (fun f => f.wire == p.member && f.ty == .lit [e.1])
+    | none => false
+
+def parseTableOk (classes : List Class) (p : ParseTable) : Bool := p.table.all (parseEntryOk classes p)
+
+/-- a conforming object of a class that declares `member : Literal[tag]` carries `member = tag` -/
+theorem tag_of_conforms {cls : String} {c : Class} (hwf : ClassWF c) (hfind : cfg.find cls = some c)
+    {f : Field} (hf : f ∈ c.fields) {tag : String} (hty : f.ty = .lit [tag]) (kvs : List (String × Json))
+    (hc : conforms cfg (.ref cls) (.obj kvs) = true) : lookup f.wire kvs = some (.str tag) := by
+  simp only [conforms, hfind, Bool.and_eq_true] at hc
+  obtain ⟨⟨⟨hnd, hmem⟩, hfields⟩, _⟩ := hc
+  have hk : hasKey f.wire kvs = true := by
+    have := List.all_eq_true.mp hfields f hf
+    simp only [hty, Ty.isTag, Bool.not_true, Bool.and_false, Bool.or_false] at this
+    exact this
+  rw [hasKey_eq_isSome] at hk
+  cases hl : lookup f.wire kvs with
+  | none => rw [hl] at hk; cases hk
+  | some x =>
+    have hx := (conformsMembers_mem hmem (f.wire, x) (lookup_mem hl)).2.2 f (byWire_of_mem hwf hf)
+    rw [hty] at hx
+    cases x <;> simp [conforms, Ty.isOpt] at hx
+    subst hx; rfl
+
+/-- **`parse_*` dispatch picks the class the tag names and loses nothing.** -/
+theorem parse_dispatch (hwf : CfgWF cfg) (p : ParseTable) (tag cls : String)
+    (hok : parseEntryOk cfg.classes p (tag, cls) = true) (j : Json)
+    (hc : conforms cfg (.ref cls) j = true) (hu : unamb cfg (.ref cls) j = true) :
+    ∃ v, p.run cfg j = .ok v ∧ dump cfg true true v = expected cfg (.ref cls) j := by
+  simp only [parseEntryOk, Bool.and_eq_true, beq_iff_eq] at hok
+  obtain ⟨htab, hcls⟩ := hok
+  cases hfc : cfg.classes.find? (fun c => c.id == cls) with
+  | none => simp [hfc] at hcls
+  | some c =>
+    have hfind : cfg.find cls = some c := hfc
+    simp only [hfc, List.any_eq_true, Bool.and_eq_true, beq_iff_eq] at hcls
+    obtain ⟨f, hf, hfw, hty⟩ := hcls
+    have hty' : f.ty = .lit [tag] := by simpa using hty
+    cases j with
+    | obj kvs =>
+      have hl := tag_of_conforms (hwf c (find_mem hfind)) hfind hf hty' kvs hc
+      rw [hfw] at hl
+      obtain ⟨v, hv, hd⟩ := conforming_identity hwf (.ref cls) (.obj kvs) hc hu
+      exact ⟨v, by simp only [ParseTable.run, hl, htab, hv], hd⟩
+    | _ => simp [conforms, Ty.isOpt] at hc
+variable {cfg : Cfg}
+
+/-- attribute name -> wire name (the renaming `model_dump(by_alias=True)` applies) -/
+def toWire (c : Class) (k : String) : String :=
+  match c.byName k with
+  | some f => f.wire
+  | none => k
+
+theorem attrOf_toWire {c : Class} (hwf : ClassWF c) {k : String} (h : (c.byName k).isSome = true) :
+    c.attrOf (toWire c k) = k := by
+  cases hb : c.byName k with
+  | none => rw [hb] at h; cases h
+  | some f =>
+    obtain ⟨hf, hfn⟩ := byName_some hb
+    simp only [toWire, hb]
+    rw [attrOf_wire (byWire_of_mem hwf hf), hfn]
+
+/-- **What a helper builds is the wire form.**  If a `create_*` helper hands the keyword arguments `a`
+(attribute names) to the constructor of class `cls`, and the same members under their wire names form a
+spec-valid object `w`, then the helper succeeds and its result dumps to exactly `expected w` — wire
+names, declared defaults added, no `None` member. -/
+theorem builder_emits_wire_form (hwf : CfgWF cfg) (b : Builder) (cls : String) (c : Class) (args a : Obj)
+    (hret : b.ret.retClass = some cls) (hfind : cfg.find cls = some c) (hn : namesApart c = true)
+    (heval : b.eval args = some (.obj a)) (hattr : ∀ p ∈ a, (c.byName p.1).isSome = true)
+    (hinv : cfg.inv c.id a = cfg.inv c.id (a.map (fun p => (toWire c p.1, p.2))))
+    (hc : conforms cfg (.ref cls) (.obj (a.map (fun p => (toWire c p.1, p.2)))) = true)
+    (hu : unamb cfg (.ref cls) (.obj (a.map (fun p => (toWire c p.1, p.2)))) = true) :
+    ∃ v, b.run cfg args = .ok v
+      ∧ dump cfg true true v = expected cfg (.ref cls) (.obj (a.map (fun p => (toWire c p.1, p.2)))) := by
+  have hcw := hwf c (find_mem hfind)
+  have hback : (a.map (fun p => (toWire c p.1, p.2))).map (fun p => (c.attrOf p.1, p.2)) = a := by
+    rw [List.map_map]
+    conv => rhs; rw [← List.map_id a]
+    apply List.map_congr_left
+    intro p hp
+    simp only [Function.comp, attrOf_toWire hcw (hattr p hp), id]
+  obtain ⟨v, hv, hd⟩ := conforming_identity hwf _ _ hc hu
+  refine ⟨v, ?_, hd⟩
+  have := construct_by_attribute_names (cfg := cfg) hcw hn hfind (a.map (fun p => (toWire c p.1, p.2)))
+    (by rw [hback]; exact hinv)
+  rw [hback] at this
+  simp only [Builder.run, heval, hret, this, hv]
 
 end Verif.Lemmas.Schema
